@@ -17,7 +17,8 @@ LEVEL = "exploration"
 RULE = ("cases = generated argument vectors for netconan.netconan.main (in process, audit hook + snapshots watching the "
         "file system; a sample as child processes, under strace in thorough): (a) rejection table written from the "
         "property (undo without salt, undo with -a, -d without -a, host bits outside 0..32 or non-integer, missing "
-        "-i/-o) in every spelling (short/long flag, command line / config file / both) -> must end in an exception or "
+        "-i/-o, empty -i/-o values) in every spelling (short/long flag, unambiguous abbreviation read from the tree's own --help, "
+        "-xVALUE, -x=VALUE, merged short flags; command line / config file / both) -> must end in an exception or "
         "non-zero exit with ZERO write events; no feature selected -> nothing written; (b) accepted vectors: every "
         "option placed on the command line, in the config file, or in both with a conflicting config value (command "
         "line must win) -> output tree and IP-map dump byte-equal to the all-command-line spelling and to a direct "
